@@ -5,6 +5,7 @@ from vf.lazy import ck, libx, common
 from vf.monitors import algos
 
 PROP = "C06"
+TECHNIQUE = ('runtime monitoring: partition / consensus / flag of ParCons with a recording proxy as auxiliary algorithm, judged against the DP optimum restricted to the partition vs the global optimum')
 RULE = ("cases = dataset (D7, D9, D10 first: sparse rankings missing a whole component, >= 3 components; D2-D4, D8; n<=8 "
         "quick, <=10 thorough) x scheme (S1-S3, S6; B[5] != T[5] often) x ParCons configuration (bound_for_exact in "
         "{0,2,3,80}, auxiliary BioConsert/KwikSort/Copeland/BioCo wrapped in a recording proxy) x CPLEX absent / stand-in; "
